@@ -10,6 +10,26 @@ NOTES = {
     "C10-m1": "missed by the first version of the check; caught after the duplicate-hunk variation was added",
     "C10-m2": "valid against the tree it was written for (844bf96); the later repair D28 (isArrayIndex guard in readPointer) makes the slip harmless, so on the current tree the demonstration passes with the change applied. Kept for the record; the strengthened check (float-looking keys, odd index tokens) was built because of it and found D28",
     "C14-m1": "missed by the first version of the check (-o always wrote into a fresh directory); caught after the output file is pre-filled with longer stale content",
+    "C01-m3": "missed by the first version of the check (no subnormal numbers in the value pool); caught after 5e-324, 1e-310, 2.5e-320 were added",
+    "C01-m4": "missed by the first version of the check (no strings longer than 56 bytes with a common prefix); caught after the long-string pool and 'near' edits (same string, changed tail) were added",
+    "C02-m4": "missed by the first version of the check (C02 did not run the binaries); caught after the C02 cli leg (jd a b, jd -p on the printed text, payload strings with %) was added; C14 catches it too",
+    "C03-m4": "missed by the first version of the check; caught after the target perturbation 'array replaced by an object with the indices as keys (or by null)' was added",
+    "C04-m4": "missed by the first version of the check; caught after near-twin pairs (adjacent float64 values, numbers agreeing to 15 digits) were added",
+    "C05-m4": "missed by the first version of the check (MERGE together with Precision was not an option set of the check); caught after merge+prec pairs were added",
+    "C06-m3": "missed by the first version of the check (arrays up to 160 elements); caught after arrays of 300-700 elements edited at both ends / rotated were added",
+    "C06-m4": "missed by the first version of the check (no option was ever passed); caught after the same oracles are also run under Precision(0.1) on whole-number documents",
+    "C08-m3": "caught. The demonstration asserted the concrete type jsonSet of a Patch result; it was adapted by one line after the D30 repair (Patch returns a plain array)",
+    "C08-m4": "NOT counted as a violation of C08: the change only shows when the same receiver value is patched a second time (or read after Patch). jd consumes the receiver of Patch on the unchanged tree as well (object and list patches write into it), every check re-parses its inputs, and the statement says nothing about the receiver after the call. Kept for the record",
+    "C10-m3": "missed by the first version of the check; caught after the '-' token inside a path (add /-/x) was added to the odd-token variation",
+    "C10-m4": "missed by the first version of the check (no key containing ~1); caught after the keys ~1, a~1b, x~01, ~01 were added to the key pool",
+    "C11-m3": "missed by the first version of the check (nesting up to 10); caught after chains of 28-45 nested objects were added",
+    "C11-m4": "missed by the first version of the check; caught after adjacent-float edits were added",
+    "C12-m3": "missed by the first version of the check (every case started from freshly parsed documents); caught after the chain leg (patches applied to the value returned by the previous Patch, plus probe patches on fresh documents after every step) was added",
+    "C12-m4": "missed by the first version of the check (no empty-string key in merge documents); caught after the nasty key pool was switched on for C12",
+    "C13-m4": "missed by the first version of the check (.inf and .nan but not -.inf among the hostile constants); caught after the negative and tagged spellings were added",
+    "C14-m3": "missed by the first version of the check; caught after -setkeys is also written with blanks around the keys, as the usage text allows",
+    "C14-m4": "missed by the first version of the check; caught after 10% of the documents carry a 70 KB string (stdin legs) ",
+    "C16-m4": "missed by the first version of the check (Json()/Yaml() were never called with a reading option); caught after the SET / MULTISET render round trips and repeated array elements were added",
     "C14-m2": "missed by the first version of the check (stdin was always a pipe); caught after a run with stdin redirected from a regular file was added",
 }
 
